@@ -31,7 +31,7 @@ def c16(tier, seed):
 
 
 def c05(tier, seed):
-    return cc.codec_check('C05', tier, seed, ['per', 'uper'], ['PER'], ['enc', 'dec'], numerics='0', model=['PerOctetPadded'],
+    return cc.codec_check('C05', tier, seed, ['per', 'uper'], ['PER'], ['enc', 'dec'], numerics='0', model=['PerOctetPadded'], big=('big', 'quick', 'thorough'),
                           fixtures={'quick': (['tests/test_uper.py', 'tests/test_per.py'], 'x691 or foo or sequence or choice or integer or enumerated or string'),
                                     'thorough': (['tests/test_uper.py', 'tests/test_per.py', 'tests/test_codecs_consistency.py'], None)})
 
